@@ -74,6 +74,8 @@ type C struct {
 	mwrapMemo       map[*ssa.Function]*[3]string
 	enumMemo        map[*types.Named][3]int64
 	storedTypesMemo map[string]bool
+	pairsDone       bool
+	closureRelMemo  map[*ssa.MakeClosure][]*lockEvent
 	freshUse        *ssa.BasicBlock // the block of the store a freshness question is asked for (phi edges that cannot reach it are skipped)
 	preMemo         map[*ssa.Function][]dfact
 	preBusy         map[*ssa.Function]bool
